@@ -21,6 +21,23 @@ func main() {
 		cmdVerify(os.Args[2:])
 	case "check":
 		cmdCheck(os.Args[2:])
+	case "locals":
+		// development: print the `locals` line of every function under contract
+		w, err := loadWorld("/repo", "/verif")
+		if err != nil {
+			fmt.Fprintln(os.Stderr, "load:", err)
+			os.Exit(2)
+		}
+		var keys []string
+		for k, c := range w.contracts {
+			if !c.Extern && !c.Trusted && w.fnIndex[k] != nil {
+				keys = append(keys, k)
+			}
+		}
+		sort.Strings(keys)
+		for _, k := range keys {
+			fmt.Printf("%-40s //@   locals %s\n", k, strings.Join(declaredLocals(w.fnIndex[k]), " "))
+		}
 	default:
 		fmt.Fprintln(os.Stderr, "unknown command", os.Args[1])
 		os.Exit(2)
